@@ -1,0 +1,14 @@
+//go:build verif
+
+package loadbalancer
+
+// VerifGate, when set by a verification harness, is called at scheduling
+// points (before lock acquisitions and before publishing to the metrics
+// mirror) so that interleavings can be imposed.
+var VerifGate func(point string)
+
+func vgate(point string) {
+	if g := VerifGate; g != nil {
+		g(point)
+	}
+}
